@@ -27,7 +27,9 @@ type Case struct {
 }
 
 var (
-	positions = []string{"stmt", "define", "assign", "arg", "return", "binary", "two"}
+	// closure / lambda: the wrapped call sits in a function literal (or a lambda passed to a helper) nested in the
+	// named enclosing function; only expr! is placed there (expr? would return from the literal itself)
+	positions = []string{"stmt", "define", "assign", "arg", "return", "binary", "two", "closure", "lambda"}
 	operators = []string{"!", "?", "?:"}
 )
 
@@ -94,6 +96,8 @@ type refFrame struct {
 func (p *refFrame) Error() string { return p.err.Error() + " @ main.xgo " + p.text }
 func (p *refFrame) Unwrap() error { return p.err }
 
+func each1(f func(n int)) { f(0) }
+
 func refWrap(err error, code string, fn string) error {
 	return &refFrame{err, "main." + fn + " " + code}
 }
@@ -142,6 +146,13 @@ func wellTyped(k Case) string {
 	}
 	switch k.Pos {
 	case "stmt":
+	case "closure", "lambda":
+		if k.Op != "!" {
+			return "skipped_nested_function_positions_only_for_panic_operator"
+		}
+		if k.Arity != 1 {
+			return "skipped_nested_function_positions_only_for_one_value"
+		}
 	case "define", "assign", "arg":
 		if k.Arity == 0 {
 			return "skipped_not_typed_in_go:no_value_to_use"
@@ -253,6 +264,12 @@ func build(k Case, i int) (xgoDecl, goDecl, body string) {
 			x = "var x int = -1\nvar t string = \"old\"\nx, t = " + w + "\nfmt.Println(\"got\", x, t)\n"
 			g = "var x int = -1\nvar t string = \"old\"\n" + exp + "x, t = v1, w1\nfmt.Println(\"got\", x, t)\n"
 		}
+	case "closure":
+		x = "func() {\n\tx := " + w + "\n\tfmt.Println(\"got\", x)\n}()\n"
+		g = "func() {\n" + indent(exp+"x := v1\nfmt.Println(\"got\", x)\n") + "}()\n"
+	case "lambda":
+		x = "each1 n => {\n\tx := " + w + "\n\tfmt.Println(\"got\", x+n)\n}\n"
+		g = "each1(func(n int) {\n" + indent(exp+"x := v1\nfmt.Println(\"got\", x+n)\n") + "})\n"
 	case "arg":
 		x = fmt.Sprintf("use%d(%s)\n", k.Arity, w)
 		g = exp + fmt.Sprintf("use%d(%s)\n", k.Arity, strings.Join(vars, ", "))
